@@ -149,7 +149,7 @@ func buildClosureAliases(fns map[string]*ssa.Function) {
 
 // canonFn translates a (short or qualified) current function name into the name the contracts use.
 func canonFn(name string) string {
-	if len(closureToBaseline) == 0 || !strings.Contains(name, "$") {
+	if len(closureToBaseline) == 0 {
 		return name
 	}
 	short := strings.ReplaceAll(name, modulePrefix+"/", "")
@@ -160,5 +160,186 @@ func canonFn(name string) string {
 	if b, ok := closureToBaseline[short]; ok {
 		return pre + b
 	}
+	// a closure of a renamed function
+	if i := strings.Index(short, "$"); i > 0 {
+		if b, ok := closureToBaseline[short[:i]]; ok {
+			return pre + b + short[i:]
+		}
+	}
 	return name
+}
+
+// buildFunctionAliases: a function under contract that no longer exists under its name is looked for among the
+// functions of the same package that the baseline does not know: same receiver kind, same signature, similar callees.
+func buildFunctionAliases(fns map[string]*ssa.Function, contracts map[string]*Contract) {
+	base := loadSignatureBaseline()
+	known := map[string]bool{}
+	for n := range base {
+		known[n] = true
+	}
+	for full := range contracts {
+		key := full
+		if i := strings.Index(key, "@"); i >= 0 {
+			key = key[:i]
+		}
+		if strings.Contains(key, "$") || fns[key] != nil {
+			continue
+		}
+		short := strings.ReplaceAll(key, modulePrefix+"/", "")
+		b, ok := base[short]
+		if !ok || b.FP == nil {
+			continue
+		}
+		pkgOf := func(n string) string {
+			n = strings.TrimLeft(n, "(*")
+			if i := strings.Index(n, "."); i >= 0 {
+				return n[:i]
+			}
+			return n
+		}
+		recvOf := func(n string) string {
+			if strings.HasPrefix(n, "(") {
+				if i := strings.Index(n, ")"); i > 0 {
+					return n[:i+1]
+				}
+			}
+			return ""
+		}
+		best, score := "", 0.5
+		for cn, cf := range fns {
+			cs := strings.ReplaceAll(cn, modulePrefix+"/", "")
+			if cs == cn || known[cs] || strings.Contains(cs, "$") || len(cf.Blocks) == 0 {
+				continue
+			}
+			if pkgOf(cs) != pkgOf(short) || recvOf(cs) != recvOf(short) || cf.Signature.String() != b.FP.Sig {
+				continue
+			}
+			if s := jaccard(b.FP.Calls, fingerprint(cf).Calls); s > score || (s == score && cs < best) {
+				best, score = cs, s
+			}
+		}
+		if best != "" {
+			closureToBaseline[best] = short
+			baselineToClosure[short] = best
+		}
+	}
+}
+
+// Loops are named by ordinal too (loop#k in contracts: invariants, peel). The baseline records a fingerprint per loop
+// (what its body calls, and what kind of header it has); baselineLoop translates the ordinal of a CURRENT loop into the
+// ordinal it had when the contracts were written (or -1 for a loop that did not exist then).
+type loopFP struct {
+	Ordinal int      `json:"ordinal"`
+	Kind    string   `json:"kind"`
+	Calls   []string `json:"calls"`
+}
+
+func loopFingerprints(fn *ssa.Function) []loopFP {
+	var out []loopFP
+	if len(fn.Blocks) == 0 {
+		return out
+	}
+	for _, lp := range computeLoops(fn).Loops {
+		set := map[string]bool{}
+		kind := "for"
+		for _, ins := range lp.Header.Instrs {
+			switch v := ins.(type) {
+			case *ssa.Next:
+				if v.IsString {
+					kind = "range-string"
+				} else {
+					kind = "range-map"
+				}
+			case *ssa.UnOp:
+				if v.Op.String() == "<-" {
+					kind = "range-chan"
+				}
+			}
+		}
+		for b := range lp.Body {
+			for _, ins := range b.Instrs {
+				var c *ssa.CallCommon
+				switch v := ins.(type) {
+				case *ssa.Call:
+					c = &v.Call
+				case *ssa.Defer:
+					c = &v.Call
+				case *ssa.Go:
+					c = &v.Call
+				case *ssa.Select:
+					set["select"] = true
+					continue
+				default:
+					continue
+				}
+				n := calleeName(c)
+				if strings.HasPrefix(n, "builtin.") || n == "dynamic" {
+					continue
+				}
+				set[strings.ReplaceAll(n, modulePrefix+"/", "")] = true
+			}
+		}
+		var calls []string
+		for k := range set {
+			calls = append(calls, k)
+		}
+		sort.Strings(calls)
+		out = append(out, loopFP{Ordinal: lp.Ordinal, Kind: kind, Calls: calls})
+	}
+	return out
+}
+
+var loopAliasMemo = map[*ssa.Function]map[int]int{}
+
+// baselineLoopOrdinal: current ordinal -> ordinal in the contracts.
+func baselineLoopOrdinal(fn *ssa.Function, cur int) int {
+	m, ok := loopAliasMemo[fn]
+	if !ok {
+		m = map[int]int{}
+		base, have := loadSignatureBaseline()[canonFn(strings.ReplaceAll(fn.String(), modulePrefix+"/", ""))]
+		now := loopFingerprints(fn)
+		if !have || len(base.Loops) == 0 {
+			for _, l := range now {
+				m[l.Ordinal] = l.Ordinal
+			}
+		} else {
+			used := map[int]bool{}
+			matchedBase := map[int]bool{}
+			// same ordinal, same kind, similar body
+			for _, b := range base.Loops {
+				for _, l := range now {
+					if l.Ordinal == b.Ordinal && l.Kind == b.Kind && jaccard(b.Calls, l.Calls) >= 0.6 && !used[l.Ordinal] {
+						m[l.Ordinal], used[l.Ordinal], matchedBase[b.Ordinal] = b.Ordinal, true, true
+					}
+				}
+			}
+			for _, b := range base.Loops {
+				if matchedBase[b.Ordinal] {
+					continue
+				}
+				best, score := -1, 0.34
+				for _, l := range now {
+					if used[l.Ordinal] || l.Kind != b.Kind {
+						continue
+					}
+					if s := jaccard(b.Calls, l.Calls); s > score {
+						best, score = l.Ordinal, s
+					}
+				}
+				if best >= 0 {
+					m[best], used[best], matchedBase[b.Ordinal] = b.Ordinal, true, true
+				}
+			}
+			for _, l := range now {
+				if !used[l.Ordinal] {
+					m[l.Ordinal] = -1
+				}
+			}
+		}
+		loopAliasMemo[fn] = m
+	}
+	if v, ok := m[cur]; ok {
+		return v
+	}
+	return cur
 }
